@@ -121,6 +121,7 @@ class Aggregate:
             'tables': self.cov,
             'monitor_counters': self.counters,
             'undecided_cases': len(self.inconclusive),
+            'undecided_reasons': [str(r)[:300] for _, r in self.inconclusive[:5]],
             'known_finding_hits': {s: n for s, (_, n, _) in kf_hits.items()},
             'new_violation_mechanisms': [list(map(str, k)) for k in new],
             'tree': boot.tree_identity(),
